@@ -37,6 +37,11 @@ for e in edits:
         import treecache; treecache.cleanup(tmp)
 shutil.rmtree('/tmp/benign-target', ignore_errors=True)
 os.makedirs(os.path.join(HERE, 'seeded'), exist_ok=True)
-json.dump(rows, open(os.path.join(HERE, 'seeded', 'BENIGN.json'), 'w'), indent=1)
+bp = os.path.join(HERE, 'seeded', 'BENIGN.json')
+if only and os.path.exists(bp):
+    # a partial run replaces only the rows of the edits it ran
+    keep = [r for r in json.load(open(bp)) if r['edit'] not in only]
+    rows = sorted(keep + rows, key=lambda r: (r['edit'], r.get('property', '')))
+json.dump(rows, open(bp, 'w'), indent=1)
 print(f'benign edits: {len(rows)} runs, false alarms: {bad}')
 sys.exit(1 if bad else 0)
